@@ -9,6 +9,7 @@ import (
 	"os"
 	"path/filepath"
 	"sort"
+	"strings"
 	"sync"
 	"time"
 
@@ -183,6 +184,10 @@ type World struct {
 	// Calm: this sequence keeps the node leading (few disruptive requests): leader-side behaviour
 	// (membership changes, rounds, transfers, commits, compaction) gets deep states
 	Calm bool
+	// late: a transfer ended while the answer to its timeout-now request was still outstanding (1: deliver that answer
+	// now; 2: it was delivered, let the new-term timer behind it expire); prevResp: the previous digest showed such a request
+	late     int
+	prevResp bool
 }
 
 var worlds sync.Map // dir -> *World
@@ -568,7 +573,11 @@ func (w *World) Step(op Op) bool {
 				// lies within the commit index: the orderings of C19 / the feed of C03 are broken
 				prop += "/C19/C03"
 			}
-			w.record("panic", pre, real, nil, op, "real node panicked ("+w.Node.Panic+") on a request a correct cluster can send", prop)
+			note := "real node panicked (" + w.Node.Panic + ") on a request a correct cluster can send"
+			if strings.HasPrefix(w.Node.Panic, "deadlock") {
+				note = "real node is deadlocked (" + w.Node.Panic + "): after this operation the fsm goroutine never answers the state loop's lastApplied() — the call a GetInfo task makes — within the watchdog; the state loop waits for the fsm goroutine, which itself is blocked"
+			}
+			w.record("panic", pre, real, nil, op, note, prop)
 		} else {
 			w.St.Hist["panic-after-adversarial-input"]++
 		}
